@@ -21,6 +21,11 @@
      IMPL(!ag.live[s][2], (rt)->video[s].sink.is_running == 0) &&                             \
      IMPL(WORKER_USES_CAM(rt, s), (rt)->video[s].source.camera != 0) &&                       \
      IMPL(WORKER_USES_STO(rt, s), (rt)->video[s].sink.storage != 0) &&                        \
+     /* a device is Running only on behalf of a worker that has not been joined yet */       \
+     IMPL((rt)->video[s].source.camera != 0 &&                                                \
+            (rt)->video[s].source.camera->state == DeviceState_Running, ag.live[s][0]) &&     \
+     IMPL((rt)->video[s].sink.storage != 0 &&                                                 \
+            (rt)->video[s].sink.storage->state == DeviceState_Running, ag.live[s][2]) &&      \
      /* a filter or sink worker without a source worker has been told to stop */             \
      IMPL(ag.live[s][1] && !ag.live[s][0], (rt)->video[s].filter.is_stopping) &&              \
      IMPL(ag.live[s][2] && !ag.live[s][0], (rt)->video[s].sink.is_stopping) &&                \
@@ -186,7 +191,9 @@ static int g_mon_state0;
     REQ(self_ == &g_rt->handle && settings != 0 && RI(g_rt) && NO_LEAK(g_rt))                 \
     ENS("[C08.no-leak] after configure every open device is referenced by exactly one slot",\
         NO_LEAK(g_rt))                                                                        \
-    ENS("[C08.invariant] the runtime invariant is preserved", RI(g_rt))                       \
+    ENS("[C08.invariant] the runtime invariant is preserved (unless a device was closed "    \
+        "under a live worker, which is reported by its own obligation)",                      \
+        ag.closed_under_worker || RI(g_rt))                                                   \
     ENS("[C08.configured-state] with at least one valid stream the runtime is Armed (or "    \
         "stays Running); with none it awaits configuration",                                  \
         g_rt->valid_video_streams != 0                                                        \
